@@ -1,4 +1,5 @@
 import Agd.Gen.TrC06
+import Agd.Model.Buffers
 /-!
 # C06: which bytes are decoded, as translated from the source
 
@@ -91,6 +92,261 @@ example (u : S_forward_UpstreamPlain) :
       ["getBuffer", "packReq", "Get", "processConn", "packReq", "Create", "processConn", "putBuffer"] := by
   simp [upstream_exchangeNet, names]
 
+/-! ## `UpstreamPlain.packReq` (translated with byte slices as lists, `copy` as `goCopy`)
+
+Parameters of `upstream_packReq`: `buf` (the pooled buffer), `o1_Len` (the result of `req.Len()`),
+`o2_PackBuffer` (what `req.PackBuffer(msgBuf)` returned: the packed slice and the error).  Results:
+`n`, `err`, the final contents of the local `msgBuf` and the trace.  In Go `msgBuf` shares its array
+with `buf` (from offset 2 on TCP); lists do not alias, so "what `msgBuf` holds at the end is what
+`buf[2:]` (resp. `buf`) holds" is the reading of the Go slice semantics assumed here, not derived. -/
+
+/-- Normal form of the translated `packReq`. -/
+theorem packReq_tcp (u : S_forward_UpstreamPlain) (buf : List Int) (reqLen : Int)
+    (pk : List Int × Option String) :
+    upstream_packReq u "tcp" buf reqLen pk =
+      if reqLen > 65535 then some (0, some "dns.ErrBuf", [], [("Len", [])])
+      else if reqLen > (buf.length : Int) - 2 then some (0, some "dns.ErrBuf", buf, [("Len", [])])
+      else if (buf.length : Int) < 2 then none
+      else if pk.2.isSome then some (0, pk.2, buf.drop 2, [("Len", []), ("PackBuffer", ["_"])])
+      else if (pk.1.length : Int) > (buf.length : Int) - 2 then
+        some (0, some "dns.ErrBuf", buf.drop 2, [("Len", []), ("PackBuffer", ["_"])])
+      else some (goCopyN (buf.drop 2) pk.1 + 2, none, goCopy (buf.drop 2) pk.1,
+        [("Len", []), ("PackBuffer", ["_"]), ("PutUint16", ["_", toString (goWrapU 65536 (goCopyN (buf.drop 2) pk.1))])]) := by
+  unfold upstream_packReq
+  by_cases h1 : reqLen > 65535
+  · simp [h1]
+  by_cases h2 : reqLen > (buf.length : Int) - 2
+  · simp [h1, h2]
+  by_cases h4 : (buf.length : Int) < 2
+  · have : ¬ (2 : Int) ≤ buf.length := by omega
+    simp [h1, h2, h4, this]
+  have h4' : (2 : Int) ≤ buf.length := by omega
+  have hd : ((List.drop 2 buf).length : Int) = (buf.length : Int) - 2 := by
+    rw [List.length_drop] <;> omega
+  cases h5 : pk.2
+  · by_cases h6 : (pk.1.length : Int) > (buf.length : Int) - 2
+    · simp [h1, h2, h4, h4', h5, h6] <;> omega
+    · simp [h1, h2, h4, h4', h5, h6] <;> omega
+  · simp [h1, h2, h4, h4', h5]
+
+/-- Normal form on every other network. -/
+theorem packReq_udp (u : S_forward_UpstreamPlain) (network : String) (hn : network ≠ "tcp") (buf : List Int)
+    (reqLen : Int) (pk : List Int × Option String) :
+    upstream_packReq u network buf reqLen pk =
+      if reqLen > 65535 then some (0, some "dns.ErrBuf", [], [("Len", [])])
+      else if reqLen > (buf.length : Int) then some (0, some "dns.ErrBuf", buf, [("Len", [])])
+      else if pk.2.isSome then some (0, pk.2, buf, [("Len", []), ("PackBuffer", ["_"])])
+      else if (pk.1.length : Int) > (buf.length : Int) then
+        some (0, some "dns.ErrBuf", buf, [("Len", []), ("PackBuffer", ["_"])])
+      else some (goCopyN buf pk.1, none, goCopy buf pk.1, [("Len", []), ("PackBuffer", ["_"])]) := by
+  unfold upstream_packReq
+  by_cases h1 : reqLen > 65535
+  · simp [h1]
+  by_cases h2 : reqLen > (buf.length : Int)
+  · simp [h1, h2, hn]
+  cases h5 : pk.2
+  · by_cases h6 : (pk.1.length : Int) > (buf.length : Int)
+    · simp [h1, h2, hn, h5, h6] <;> omega
+    · simp [h1, h2, hn, h5, h6] <;> omega
+  · simp [h1, h2, hn, h5]
+
+/-- Bytes of the hand-written model as the integers of the translated code. -/
+def toI (b : Agd.Buffers.Bytes) : List Int := b.map fun x => (x.toNat : Int)
+
+@[simp] theorem toI_length (b : Agd.Buffers.Bytes) : (toI b).length = b.length := by simp [toI]
+
+theorem toI_overwrite (a b : Agd.Buffers.Bytes) : toI (Agd.Buffers.overwrite a b) = goCopy (toI a) (toI b) := by
+  simp [toI, Agd.Buffers.overwrite, goCopy, List.map_take, List.map_drop]
+
+theorem overwrite_twice (b p : Agd.Buffers.Bytes) (h : p.length ≤ b.length) :
+    Agd.Buffers.overwrite (Agd.Buffers.overwrite b p) p = Agd.Buffers.overwrite b p := by
+  have e : Agd.Buffers.overwrite b p = p ++ b.drop p.length := by
+    simp [Agd.Buffers.overwrite, List.take_of_length_le h]
+  rw [e]
+  simp [Agd.Buffers.overwrite]
+  exact List.take_of_length_le (by omega)
+
+theorem model_buffer (spare : Nat) (b p : Agd.Buffers.Bytes) (h : p.length ≤ b.length) :
+    Agd.Buffers.overwrite (Agd.Buffers.packBufferInto spare b p) p = Agd.Buffers.overwrite b p := by
+  unfold Agd.Buffers.packBufferInto
+  split
+  · exact overwrite_twice b p h
+  · rfl
+
+/-- What the caller of `packReq` sees: `n`, `err` and the final contents of `msgBuf`. -/
+def visible (o : Option (Int × Option String × List Int × List (String × List String))) :
+    Option (Int × Option String × List Int) := o.map fun r => (r.1, r.2.1, r.2.2.1)
+
+/-- **The hand-written `Agd.Buffers.packReq` is the translated source** (success case, every buffer and
+every packed request of at most 65535 bytes, both networks): when `Len()` is the packed length and
+`PackBuffer` returns the packed request without an error — whether it packed in place or allocated
+(`spare`) — the translated function returns the model's `bufReqLen` and leaves in `msgBuf` exactly
+what the model's buffer holds after the length prefix. -/
+theorem packReq_tr_some (u : S_forward_UpstreamPlain) (network : String) (spare : Nat) (buf packed : Agd.Buffers.Bytes)
+    (hlen : packed.length ≤ 65535) (r : Nat × Agd.Buffers.Bytes)
+    (hm : Agd.Buffers.packReq spare (decide (network = "tcp")) buf packed = some r) :
+    visible (upstream_packReq u network (toI buf) packed.length (toI packed, none)) =
+      some ((r.1 : Int), none, toI (r.2.drop (if network = "tcp" then 2 else 0))) := by
+  unfold Agd.Buffers.packReq at hm
+  by_cases hn : network = "tcp"
+  · subst hn
+    simp at hm
+    obtain ⟨hfit, hr⟩ := hm
+    subst hr
+    rw [packReq_tcp]
+    have h1 : ¬ ((packed.length : Int) > 65535) := by omega
+    have h2 : ¬ ((packed.length : Int) > (((toI buf).length : Nat) : Int) - 2) := by rw [toI_length]; omega
+    have h3 : ¬ ((((toI buf).length : Nat) : Int) < 2) := by rw [toI_length]; omega
+    have h4 : ¬ ((((toI packed).length : Nat) : Int) > (((toI buf).length : Nat) : Int) - 2) := by
+      rw [toI_length, toI_length]; omega
+    simp only [h1, h2, h3, h4, if_false, Option.isSome_none, Bool.false_eq_true, visible, Option.map_some]
+    have hd : List.drop 2 (toI buf) = toI (buf.drop 2) := by simp [toI, List.map_drop]
+    have hl : (toI packed).length ≤ (toI (buf.drop 2)).length := by simp; omega
+    have hb : List.drop 2 (Agd.Buffers.be16Bytes packed.length ++
+        Agd.Buffers.overwrite (Agd.Buffers.packBufferInto spare (List.drop 2 buf) packed) packed) =
+        Agd.Buffers.overwrite (List.drop 2 buf) packed := by
+      rw [model_buffer spare _ _ (by simp; omega)]; rfl
+    rw [hd, goCopyN_of_le _ _ hl, if_pos trivial, hb, toI_overwrite, toI_length]
+    rfl
+  · simp [hn] at hm
+    obtain ⟨hfit, hr⟩ := hm
+    subst hr
+    rw [packReq_udp u network hn]
+    have h1 : ¬ ((packed.length : Int) > 65535) := by omega
+    have h2 : ¬ ((packed.length : Int) > (((toI buf).length : Nat) : Int)) := by rw [toI_length]; omega
+    have h4 : ¬ ((((toI packed).length : Nat) : Int) > (((toI buf).length : Nat) : Int)) := by
+      rw [toI_length, toI_length]; omega
+    simp only [h1, h2, h4, if_false, Option.isSome_none, Bool.false_eq_true, visible, Option.map_some]
+    have hl : (toI packed).length ≤ (toI buf).length := by simp; omega
+    rw [goCopyN_of_le _ _ hl, if_neg hn, model_buffer spare _ _ hfit, List.drop_zero, toI_overwrite, toI_length]
+
+/-- … and where the model says `dns.ErrBuf` (buffer too small), so does the source, with `n = 0`. -/
+theorem packReq_tr_none (u : S_forward_UpstreamPlain) (network : String) (spare : Nat) (buf packed : Agd.Buffers.Bytes)
+    (hlen : packed.length ≤ 65535)
+    (hm : Agd.Buffers.packReq spare (decide (network = "tcp")) buf packed = none) :
+    (visible (upstream_packReq u network (toI buf) packed.length (toI packed, none))).map (fun o => (o.1, o.2.1)) =
+      some (0, some "dns.ErrBuf") := by
+  unfold Agd.Buffers.packReq at hm
+  have h1 : ¬ ((packed.length : Int) > 65535) := by omega
+  by_cases hn : network = "tcp"
+  · subst hn
+    simp at hm
+    rw [packReq_tcp]
+    have h2 : ((packed.length : Int) > (((toI buf).length : Nat) : Int) - 2) := by rw [toI_length]; omega
+    rw [if_neg h1, if_pos h2]; rfl
+  · simp [hn] at hm
+    rw [packReq_udp u network hn]
+    have h2 : ((packed.length : Int) > (((toI buf).length : Nat) : Int)) := by rw [toI_length]; omega
+    rw [if_neg h1, if_pos h2]; rfl
+
+/-- The hypotheses of `packReq_tr_some` are satisfiable on a non-trivial instance, on both sides. -/
+example : Agd.Buffers.packReq 1 true (Agd.Buffers.zeros 8) [1, 2, 3] = some (5, [0, 3, 1, 2, 3, 0, 0, 0]) := by decide
+example (u : S_forward_UpstreamPlain) :
+    visible (upstream_packReq u "tcp" [0, 0, 0, 0, 0, 0, 0, 0] 3 ([1, 2, 3], none)) = some (5, none, [1, 2, 3, 0, 0, 0]) := by
+  rw [packReq_tcp]; decide
+
+/-- The exact panic guard: the only panic of `packReq` is `buf[2:]` on a buffer shorter than two
+bytes, which needs `reqLen ≤ len(buf) - 2 < 0`. -/
+theorem packReq_panics_iff (u : S_forward_UpstreamPlain) (network : String) (buf : List Int) (reqLen : Int)
+    (pk : List Int × Option String) :
+    upstream_packReq u network buf reqLen pk = none ↔
+      network = "tcp" ∧ reqLen ≤ (buf.length : Int) - 2 ∧ buf.length < 2 := by
+  by_cases hn : network = "tcp"
+  · subst hn
+    rw [packReq_tcp]
+    repeat' split
+    all_goals simp
+    all_goals omega
+  · rw [packReq_udp u network hn]
+    repeat' split
+    all_goals simp [hn]
+
+/-- `packReq` never panics on a request of non-negative length. -/
+theorem packReq_never_panics (u : S_forward_UpstreamPlain) (network : String) (buf : List Int) (reqLen : Int)
+    (pk : List Int × Option String) (h : 0 ≤ reqLen) :
+    upstream_packReq u network buf reqLen pk ≠ none := by
+  rw [Ne, packReq_panics_iff]; omega
+
+/-- For every result of `Len()` and `PackBuffer`: when `packReq` reports success, the slice that
+`PackBuffer` returned (possibly a newly allocated one) has been copied to the head of `msgBuf`
+(= `buf[2:]` on TCP, `buf` otherwise) in full, `n` is its length plus the two bytes of the TCP prefix and
+fits the buffer, and on TCP `PutUint16` is called exactly once, as the last effect, with that length. -/
+theorem packReq_success (u : S_forward_UpstreamPlain) (network : String) (buf : List Int) (reqLen : Int)
+    (pk : List Int × Option String) (n : Int) (mb : List Int) (tr : List (String × List String))
+    (h : upstream_packReq u network buf reqLen pk = some (n, none, mb, tr)) :
+    let k : Nat := if network = "tcp" then 2 else 0
+    pk.2 = none ∧ n = pk.1.length + k ∧ n ≤ buf.length ∧ reqLen + k ≤ buf.length ∧
+      mb = goCopy (buf.drop k) pk.1 ∧ mb.take pk.1.length = pk.1 ∧
+      names tr = (if network = "tcp" then ["Len", "PackBuffer", "PutUint16"] else ["Len", "PackBuffer"]) ∧
+      callsOf "PutUint16" tr = (if network = "tcp" then [["_", toString (goWrapU 65536 pk.1.length)]] else []) := by
+  by_cases hn : network = "tcp"
+  · subst hn
+    rw [packReq_tcp] at h
+    split at h
+    · simp at h
+    split at h
+    · simp at h
+    split at h
+    · simp at h
+    split at h
+    · rename_i h5
+      simp at h
+      rw [h.2.1] at h5
+      simp at h5
+    split at h
+    · simp at h
+    rename_i h1 h2 h3 h5 h6
+    have hl : pk.1.length ≤ (buf.drop 2).length := by rw [List.length_drop]; omega
+    rw [goCopyN_of_le _ _ hl] at h
+    simp only [Option.some.injEq, Prod.mk.injEq, true_and] at h
+    obtain ⟨hn, hmb, htr⟩ := h
+    subst hn hmb htr
+    refine ⟨by simpa using h5, rfl, ?_, ?_, rfl, goCopy_take _ _ hl, by simp [names], by simp [callsOf]⟩
+    · omega
+    · show reqLen + ((2 : Nat) : Int) ≤ _; omega
+  · rw [packReq_udp u network hn] at h
+    split at h
+    · simp at h
+    split at h
+    · simp at h
+    split at h
+    · rename_i h5
+      simp at h
+      rw [h.2.1] at h5
+      simp at h5
+    split at h
+    · simp at h
+    rename_i h1 h2 h5 h6
+    have hl : pk.1.length ≤ buf.length := by omega
+    rw [goCopyN_of_le _ _ hl] at h
+    simp only [Option.some.injEq, Prod.mk.injEq, true_and] at h
+    obtain ⟨hnn, hmb, htr⟩ := h
+    subst hnn hmb htr
+    refine ⟨by simpa using h5, by simp [hn], ?_, ?_, by simp [hn], goCopy_take _ _ hl, by simp [names, hn], by simp [callsOf, hn]⟩
+    · omega
+    · rw [if_neg hn]; omega
+
+/-- Every failure returns `n = 0`, writes no length prefix and copies nothing into the buffer. -/
+theorem packReq_failure (u : S_forward_UpstreamPlain) (network : String) (buf : List Int) (reqLen : Int)
+    (pk : List Int × Option String) (n : Int) (e : String) (mb : List Int) (tr : List (String × List String))
+    (h : upstream_packReq u network buf reqLen pk = some (n, some e, mb, tr)) :
+    n = 0 ∧ callsOf "PutUint16" tr = [] ∧ (mb = [] ∨ mb = buf ∨ mb = buf.drop 2) ∧
+      (e = "dns.ErrBuf" ∨ pk.2 = some e) := by
+  by_cases hn : network = "tcp"
+  · subst hn
+    rw [packReq_tcp] at h
+    repeat' split at h
+    all_goals simp at h
+    all_goals obtain ⟨h1, h2, h3, h4⟩ := h
+    all_goals subst h1 h3 h4
+    all_goals simp [callsOf, h2.symm]
+  · rw [packReq_udp u network hn] at h
+    repeat' split at h
+    all_goals simp at h
+    all_goals obtain ⟨h1, h2, h3, h4⟩ := h
+    all_goals subst h1 h3 h4
+    all_goals simp [callsOf, h2.symm]
+
 end Agd.Tie.TrC06
 
 #print axioms Agd.Tie.TrC06.translation_complete
@@ -98,3 +354,15 @@ end Agd.Tie.TrC06
 #print axioms Agd.Tie.TrC06.upstream_decodes_read_bytes
 #print axioms Agd.Tie.TrC06.tcp_buffer_sized_by_prefix
 #print axioms Agd.Tie.TrC06.exchange_packs_before_every_write
+#print axioms Agd.Tie.TrC06.packReq_tcp
+#print axioms Agd.Tie.TrC06.packReq_udp
+#print axioms Agd.Tie.TrC06.toI_overwrite
+#print axioms Agd.Tie.TrC06.overwrite_twice
+#print axioms Agd.Tie.TrC06.model_buffer
+#print axioms Agd.Tie.TrC06.packReq_tr_some
+#print axioms Agd.Tie.TrC06.packReq_tr_none
+#print axioms Agd.Tie.TrC06.packReq_panics_iff
+#print axioms Agd.Tie.TrC06.packReq_never_panics
+#print axioms Agd.Tie.TrC06.packReq_success
+#print axioms Agd.Tie.TrC06.packReq_failure
+#print axioms Agd.Tie.TrC06.toI_length
